@@ -75,7 +75,50 @@ def psbtout_reser(ver: int):
     return f
 
 
-OPS = {"psbtmap.parse": psbtmap_parse, "psbtmap.norm": psbtmap_norm,
+def wrap_global(gmap: bytes) -> bytes:
+    """a whole psbt around one global map: as many minimal input/output maps as the map announces"""
+    from btclib.tx import Tx
+    from btclib import var_int
+    recs = dict(deserialize_map(BytesIO(gmap)))
+    ver = next((int.from_bytes(v, "little") for k, v in recs.items() if k[:1] == b"\xfb"), 0)
+    if ver == 0:
+        t = Tx.parse(recs[b"\x00"], check_validity=False)
+        return b"psbt\xff" + gmap + b"\x00" * (len(t.vin) + len(t.vout))
+    n_in = var_int.parse(BytesIO(recs[b"\x04"]))
+    n_out = var_int.parse(BytesIO(recs[b"\x05"]))
+    if n_in > 50 or n_out > 50:
+        raise ValueError("too many maps for a probe")
+    one_in = ser_records([(b"\x0e", b"\x11" * 32), (b"\x0f", bytes(4))])
+    one_out = ser_records([(b"\x03", (1000).to_bytes(8, "little")), (b"\x04", b"\x51")])
+    ins = b"".join(ser_records([(b"\x0e", bytes([i + 1]) * 32), (b"\x0f", bytes(4))]) for i in range(n_in))
+    return b"psbt\xff" + gmap + ins + one_out * n_out
+
+
+def psbtglobal_reser(mode: str, gmap: bytes) -> str:
+    try:
+        whole = wrap_global(gmap)
+    except Exception:  # noqa: BLE001 - no psbt can be built around it: the map itself is malformed
+        return "err refused"
+    try:
+        out = Psbt.parse(whole, check_validity=False).serialize(check_validity=False)
+    except Exception as e:  # noqa: BLE001
+        return "err refused" if common.err_class(e) in ("value", "type", "runtime") else "err " + common.err_class(e)
+    return "ok " + hx(split_maps(out)[0])
+
+
+def _o_psbtglobal_keeps_pairs(w):
+    """the global map through Psbt.parse/serialize keeps every pair but a version-0 record"""
+    g = bytes.fromhex(w["b"])
+    r = psbtglobal_reser("o", g)
+    if not r.startswith("ok"):
+        return r == "err refused", r
+    before, after = records_of(g), records_of(bytes.fromhex(r[3:]))
+    missing = [x for x in before if x not in after and not (x[0] == b"\xfb" and x[1] == bytes(4))]
+    added = [x for x in after if x not in before]
+    return not missing and not added, f"dropped {[(k.hex(), v.hex()) for k, v in missing]} added {[(k.hex(), v.hex()) for k, v in added]}"
+
+
+OPS = {"psbtglobal.reser": psbtglobal_reser, "psbtmap.parse": psbtmap_parse, "psbtmap.norm": psbtmap_norm,
        "psbtin.reser0": psbtin_reser(0), "psbtin.reser2": psbtin_reser(2),
        "psbtout.reser0": psbtout_reser(0), "psbtout.reser2": psbtout_reser(2)}
 
@@ -124,7 +167,7 @@ def _o_psbtin_keeps_pairs(w):
     return again == out, "fixed point" if again == out else "second round differs"
 
 
-ORACLES = {"psbtin.keeps_pairs": _o_psbtin_keeps_pairs}
+ORACLES = {"psbtin.keeps_pairs": _o_psbtin_keeps_pairs, "psbtglobal.keeps_pairs": _o_psbtglobal_keeps_pairs}
 
 
 # ------------------------------------------------------------------ seeds
@@ -326,6 +369,54 @@ def gen_out_records(rng):
     return out
 
 
+def gen_global_records(rng):
+    from btclib import var_int
+    r = rng.random
+    recs = []
+    v2 = r() < 0.45
+    if v2:
+        recs.append((b"\xfb", (2).to_bytes(4, "little")))
+        recs.append((b"\x02", rng.choice([1, 2, 3]).to_bytes(4, "little")))
+        recs.append((b"\x04", var_int.serialize(rng.choice([0, 1, 2]))))
+        recs.append((b"\x05", var_int.serialize(rng.choice([0, 1, 2]))))
+        if r() < 0.4:
+            recs.append((b"\x03", rng.choice([0, 500000, 1700000000]).to_bytes(4, "little")))
+        if r() < 0.4:
+            recs.append((b"\x06", bytes([rng.choice([0, 1, 3, 7])])))
+    else:
+        n_in, n_out = rng.choice([0, 1, 1, 2]), rng.choice([0, 1, 2])
+        tx = (2).to_bytes(4, "little") + var_int.serialize(n_in)
+        for i in range(n_in):
+            tx += bytes([i + 1]) * 32 + bytes(4) + (b"\x00" if r() < 0.93 else b"\x01\x51") + b"\xff" * 4
+        tx += var_int.serialize(n_out)
+        for _ in range(n_out):
+            tx += (1000).to_bytes(8, "little") + b"\x01\x51"
+        tx += bytes(4)
+        recs.append((b"\x00", tx))
+        if r() < 0.35:
+            recs.append((b"\xfb", bytes(4)))                       # an explicit version 0 record
+        if r() < 0.08:
+            recs.append((b"\x02", (2).to_bytes(4, "little")))      # a v2 field in a v0 psbt
+    if r() < 0.3:
+        recs.append((b"\x09", common.rand_bytes(rng, rng.choice([0, 1, 32]))))
+    for _ in range(rng.choice([0, 1, 2])):
+        t = rng.choice([0x0a, 0x19, 0xfc, 0xfa, 0xff])
+        recs.append((bytes([t]) + common.rand_bytes(rng, rng.randrange(0, 4)), common.rand_bytes(rng, rng.randrange(0, 6))))
+    if r() < 0.15 and recs:
+        i = rng.randrange(len(recs))
+        k, v = recs[i]
+        how = r()
+        recs[i] = ((k, v[:-1] if v else b"\x00") if how < 0.4 else (k, v + b"\x00") if how < 0.7
+                   else (k[:1] + b"\x01" + k[1:], v))
+    seen, out = set(), []
+    for k, v in recs:
+        if k not in seen:
+            seen.add(k)
+            out.append((k, v))
+    rng.shuffle(out)
+    return out
+
+
 def mutate_map(recs, rng) -> bytes:
     b = ser_records(recs)
     r = rng.random()
@@ -353,6 +444,7 @@ def run(ctx):
     lines = []
     maps_in = []
     maps_out = []
+    maps_global = []
     for b, n_in, _n_out in vendored_psbts():
         try:
             maps = split_maps(b)
@@ -361,6 +453,7 @@ def run(ctx):
         for m in maps:
             lines.append(f"psbtmap.parse o {hx(m)}")
             ctx.count("c05.input_class", "psbtmap:vendored")
+        maps_global.append(maps[0])
         maps_in += maps[1:1 + n_in]
         maps_out += maps[1 + n_in:1 + n_in + _n_out]
     for _ in range(ctx.n(600, 8000)):
@@ -451,3 +544,30 @@ def run(ctx):
                   ("kept all" if len(im) - 3 == len(t[2]) else "normalised (records dropped)"))
         cases.append((ln, im))
     ctx.correspond("psbtout.reser", ctx.harness.EXE, cases)
+
+    # ---- and for the global map (wrapped into a whole psbt on the implementation side)
+    pool = list(dict.fromkeys(maps_global[:ctx.n(150, 1500)]))
+    for _ in range(ctx.n(400, 6000)):
+        pool.append(ser_records(gen_global_records(rng)))
+    # Psbt.global_version.key_data_ignored: a version record with key data after a proper one
+    crafted_g = bytes.fromhex("01000a0200000000000000000001fb040000000002fb0101aa00")
+    ok_, detail = _o_psbtglobal_keeps_pairs({"b": crafted_g.hex()})
+    ctx.oracle("psbtglobal.keeps_pairs" + ("" if ok_ else ":Psbt.global_version.key_data_ignored"), ok_, detail,
+               key=None if ok_ else "Psbt.global_version.key_data_ignored",
+               witness={"oracle": "psbtglobal.keeps_pairs", "witness": {"b": crafted_g.hex()}})
+    lines = [f"psbtglobal.reser o {hx(m)}" for m in pool]
+    outs = ctx.model(ctx.harness.EXE, lines)
+    cases = []
+    for i, ln in enumerate(lines):
+        t = ln.split(" ")
+        g = bytes.fromhex(t[2]) if t[2] != "_" else b""
+        im = psbtglobal_reser("o", g)
+        if outs is not None and im == "err refused" and outs[i].startswith("ok"):
+            ctx.count("psbtglobal.reser.class", "semantic refusal (not modelled)")
+            continue
+        ctx.count("psbtglobal.reser.class", "refused" if im.startswith("err") else
+                  ("kept all" if len(im) - 3 == len(t[2]) else "normalised (records dropped)"))
+        if im.startswith("ok"):
+            ctx.check("psbtglobal.keeps_pairs", {"b": g.hex()})
+        cases.append((ln, im))
+    ctx.correspond("psbtglobal.reser", ctx.harness.EXE, cases)
